@@ -374,10 +374,25 @@ func stateOf(gitDir string, preBad map[string]string) (storeState, []string) {
 			problems = append(problems, "leftover outside temporary areas: lfs/"+rel)
 		}
 	}
+	// nothing of git-lfs may be left elsewhere below the Git directory either: every top-level entry must be
+	// one of Git's own
+	if ents, err := os.ReadDir(gitDir); err == nil {
+		for _, e := range ents {
+			n := e.Name()
+			if gitOwnTopLevel[n] || strings.HasPrefix(n, "MERGE_") || strings.HasPrefix(n, "rebase-") || strings.HasSuffix(n, ".lock") || strings.HasPrefix(n, "tmp_obj_") {
+				continue
+			}
+			problems = append(problems, "leftover outside temporary areas: .git/"+n)
+		}
+	}
 	sort.Strings(st.objects)
 	sort.Strings(st.bad)
 	return st, problems
 }
+
+var gitOwnTopLevel = map[string]bool{"HEAD": true, "ORIG_HEAD": true, "FETCH_HEAD": true, "AUTO_MERGE": true, "CHERRY_PICK_HEAD": true, "REVERT_HEAD": true, "BISECT_LOG": true,
+	"config": true, "config.worktree": true, "description": true, "hooks": true, "info": true, "objects": true, "refs": true, "logs": true, "index": true, "packed-refs": true,
+	"COMMIT_EDITMSG": true, "lfs": true, "branches": true, "shallow": true, "worktrees": true, "modules": true, "gitk.cache": true, "filter-repo": true, "sequencer": true}
 
 func (s storeState) String() string {
 	return fmt.Sprintf("objects=%v bad=%v", short(s.objects), short(s.bad))
@@ -420,7 +435,7 @@ type job struct {
 func main() {
 	run := evid.New("C09", "fault_enumeration")
 	defer sbx.RemoveBase()
-	run.Rule = "per scenario {git add via filter-process, one-shot clean, fetch of N objects with resume parts (server honouring / ignoring Range), pull, checkout with smudge download, migrate import, fsck repair of corrupt objects, prune, pull in a clone with a reference store, fetch with the reference store on another filesystem, fetch through a standalone custom transfer agent with its scratch directory on the same / another filesystem}: a discovery run logs every reached verif crash point (temp-file creation, each copy burst, rename into place, link/copy from a reference store, move to bad/, unlink); one SIGKILL run per (point, scenario-wide ordinal); plus an strace sweep injecting SIGKILL at the N-th write/rename/link/unlink/openat of the git-lfs process; plus a write-discipline trace check (no open-for-write below lfs/objects) on uninterrupted runs. Oracle after each kill: every file under lfs/objects hashes to its name, leftovers only in lfs/tmp|incomplete|bad|cache|logs, re-running the command exits as the uninterrupted run and ends with the same object (and bad/) set as the golden run. Class = (scenario, kill kind, crash point)."
+	run.Rule = "per scenario {git add via filter-process, one-shot clean, fetch of N objects with resume parts (server honouring / ignoring Range), pull, checkout with smudge download, migrate import, fsck repair of corrupt objects, prune, pull in a clone with a reference store, fetch with the reference store on another filesystem, fetch through a standalone custom transfer agent with its scratch directory on the same / another filesystem}: a discovery run logs every reached verif crash point (temp-file creation, each copy burst, rename into place, link/copy from a reference store, move to bad/, unlink); one SIGKILL run per (point, scenario-wide ordinal); plus an strace sweep injecting SIGKILL at the N-th write/rename/link/unlink/openat of the git-lfs process; plus a write-discipline trace check (no open-for-write below lfs/objects) on uninterrupted runs. Oracle after each kill: every file under lfs/objects hashes to its name, leftovers only in lfs/tmp|incomplete|bad|cache|logs (and no entry of the Git directory that is not Git's own), re-running the command exits as the uninterrupted run and ends with the same object (and bad/) set as the golden run. Class = (scenario, kill kind, crash point)."
 	run.Assumptions = []string{"crash = SIGKILL of a git-lfs process (not power loss); instants between two hooked points are sampled at syscall granularity by the strace sweep only", "strace's when=N counts per thread, so the sweep is sampling: the syscall actually hit is whatever the N-th one of that class was"}
 	all := scenarios(run.Thorough())
 	var chosen []scenario
